@@ -1,7 +1,7 @@
 """Which units / harnesses decide which property (see DESIGN.md section 5)."""
 
 A_COMMON = [
-    'A1 Verus 0.2026.09.13/z3, Kani 0.68/CBMC 6.11, rustc, and the extraction rules D1..D21 of vf/extract.py',
+    'A1 Verus 0.2026.09.13/z3, Kani 0.68/CBMC 6.11, rustc, and the extraction rules D1..D24 of vf/extract.py',
     'A2 bytes 1.8.0 (BytesMut::put_slice, Bytes::{len,split_to,clone}, Buf::{remaining,chunk,advance,copy_to_slice,get_u8}) behaves as the assumed sequence specifications in vf/spec/prelude.rs, including the documented panic preconditions; a Bytes never holds more than isize::MAX bytes',
     'A3 integer-encoding 4.0.2 VarInt::{encode_var,required_space,decode_var} for i16/i32/i64/u32 behave as zig-zag ULEB128 (assumed in Verus; proved on the real crate by the Kani harnesses a3_varint_*)',
     'A4 linkedbytes 0.1.8 bytes_mut/insert/insert_faststr and faststr len/as_ref/clone/from_bytes_unchecked: view = concatenation',
@@ -42,7 +42,7 @@ PROPS = {
     'C09': dict(verus=THRIFT_UNITS + ['skip', 'compact_skip', 'async_skip', 'async_compact_skip', 'appexc', 'async_binary', 'async_binary_le', 'async_compact'], kani=['a3_varint_decode_total', 'rwext_read_i16', 'rwext_read_i32', 'rwext_read_i64', 'rwext_read_u64'], assumptions=A_COMMON,
                 not_covered=NOT_GEN + '; unchecked (unsafe) readers are outside the checked-reader scope of C09'),
     'C10': dict(verus=['prost'], kani=['pb_varint_decode_total', 'pb_varint_decode_value', 'pb_varint_roundtrip', 'pb_varint_chain', 'pb_fixed_truncated'], assumptions=A_COMMON[:1] + ['decode_varint_slice (unsafe, unrolled) enters Verus through an assumed contract (Ok((v, k)) <=> the slice starts with a well-formed varint of value v and length k); Kani pb_varint_decode_total / pb_varint_decode_value prove that statement on the real code for every input of 0..=11 bytes; that longer slices behave like their first 10 bytes is read off the unrolled code, not proved', 'derive(Clone) of DecodeContext replaced by its field-wise expansion; core::cmp::min redirected to a usize wrapper'],
-                not_covered='decided: decode_varint (dispatch, slow path loop with the shift-and-or accumulation proved equal to the base-128 value), decode_key, check_wire_type, WireType::try_from, DecodeContext::{enter_recursion,limit_reached}: Ok(v) <=> the input starts with a well-formed varint / key, v is its value, exactly its bytes are consumed; skip_field against a recursive grammar of unknown fields (pskip/pgroup: groups end at the end-group key with the group\'s own field number, nest to the recursion budget, length prefixes larger than the input are rejected): Ok <=> well-formed, consumption exact, terminates with the budget as measure. encoding::bytes::merge (length prefix checked against the input before copy_to_bytes, exact consumption, value replaced by exactly the payload); encoding::group::merge is total (terminates: every iteration consumes a key; wrong wire type or exhausted budget => Err) over an assumed Message::merge_field that never lengthens the buffer. merge_loop (rule D23: the FnMut callback becomes a trait method with an assumed contract -- an Ok step consumes >= 1 byte, no step lengthens the buffer): a length prefix beyond the input is rejected with only the prefix consumed, success consumes exactly prefix + announced length, an empty payload is accepted, terminates. Not decided: that nested messages/groups receive a strictly smaller budget (the callee is emitted code), merge_loop (FnMut closure), string/message/group/map merge, bytes::merge_one_copy (Buf::take), Message::merge_length_delimited, wrappers in types.rs and generated merge_field'),
+                not_covered='decided: decode_varint (dispatch, slow path loop with the shift-and-or accumulation proved equal to the base-128 value), decode_key, check_wire_type, WireType::try_from, DecodeContext::{enter_recursion,limit_reached}: Ok(v) <=> the input starts with a well-formed varint / key, v is its value, exactly its bytes are consumed; skip_field against a recursive grammar of unknown fields (pskip/pgroup: groups end at the end-group key with the group\'s own field number, nest to the recursion budget, length prefixes larger than the input are rejected): Ok <=> well-formed, consumption exact, terminates with the budget as measure. encoding::bytes::merge (length prefix checked against the input before copy_to_bytes, exact consumption, value replaced by exactly the payload); encoding::group::merge is total (terminates: every iteration consumes a key; wrong wire type or exhausted budget => Err) over an assumed Message::merge_field that never lengthens the buffer. merge_loop (rule D23: the FnMut callback becomes a trait method with an assumed contract -- an Ok step consumes >= 1 byte, no step lengthens the buffer): a length prefix beyond the input is rejected with only the prefix consumed, success consumes exactly prefix + announced length, an empty payload is accepted, terminates. group::merge passes a strictly smaller budget to the nested field (ghost-instrumented call, D24); faststr::merge is decided like bytes::merge. Not decided: merge_loop (FnMut closure), string/message/group/map merge, bytes::merge_one_copy (Buf::take), Message::merge_length_delimited, wrappers in types.rs and generated merge_field'),
     'C11': dict(verus=['unsafe_skip', 'unsafe_lb'], kani=K_C11_W + K_C11_R, assumptions=A_COMMON[:1] + [A_LB, 'the documented preconditions of the unchecked codec (window of the reported size; complete well-formed input) are the harness assumptions'],
                 not_covered='decided besides the per-primitive Kani harnesses: the unchecked header readers read_field_begin / read_list_begin / read_set_begin / read_map_begin and the iterative skipper (Verus unit unsafe_skip: values per the binary grammar, cursor advanced by exactly the encoded size, every unchecked read in bounds given a complete well-formed input). The unchecked reader\'s advance / read_bytes / get_bytes / skip are decided for their cursor and transport bookkeeping (the view `buf` stays equal to the transport, index reset, exactly the requested bytes split off) with the raw re-derivation of the view as an assumed step (D22). The LinkedBytes writer variant is decided only for the order of operations of its zero-copy paths over assumed primitive contracts (unit unsafe_lb). Not decided: the raw stores/loads themselves beyond the Kani per-primitive harnesses, read_faststr / read_bytes_vec / read_string of the unchecked reader'),
     'C12': dict(verus=['async_binary', 'async_binary_le', 'async_compact', 'async_skip', 'async_compact_skip'], kani=[], assumptions=A_COMMON + [
